@@ -541,7 +541,12 @@ class Interp:
         """match on constants / alternatives of constants / wildcard, desugared into the equivalent if-chain"""
         subj = st.subject
         if not isinstance(subj, (ast.Name, ast.Attribute, ast.Constant)):
-            raise Unsupported(f"match on a compound subject at {pyfacts.where(fr.func, st)}")
+            # a computed subject is evaluated once, into a name of its own
+            tmp = ast.Assign(targets=[ast.Name(id="__match_subject__", ctx=ast.Store())], value=subj)
+            ast.copy_location(tmp, st)
+            ast.fix_missing_locations(tmp)
+            self.st_Assign(tmp, fr)
+            subj = ast.Name(id="__match_subject__", ctx=ast.Load())
 
         def test_of(p):
             if isinstance(p, ast.MatchValue):
@@ -552,6 +557,11 @@ class Interp:
                 return ast.BoolOp(op=ast.Or(), values=[test_of(q) for q in p.patterns])
             if isinstance(p, ast.MatchAs) and p.pattern is None:
                 return ast.Constant(True)
+            if isinstance(p, ast.MatchSequence) and all(isinstance(q, ast.MatchValue) for q in p.patterns):
+                # a sequence of constants: the subject, whatever sequence type it is, has exactly these elements
+                tests = [ast.Compare(left=ast.Call(func=ast.Name(id="len", ctx=ast.Load()), args=[subj], keywords=[]), ops=[ast.Eq()], comparators=[ast.Constant(len(p.patterns))])]
+                tests += [ast.Compare(left=ast.Subscript(value=subj, slice=ast.Constant(i), ctx=ast.Load()), ops=[ast.Eq()], comparators=[q.value]) for i, q in enumerate(p.patterns)]
+                return ast.BoolOp(op=ast.And(), values=tests)
             raise Unsupported(f"match pattern {type(p).__name__} at {pyfacts.where(fr.func, st)}")
 
         chain = None
